@@ -1,18 +1,27 @@
 /-
-Driver for stream `mptrc` (C11): keeps the model's trie, refcount map and node store per case and
-prints, after every operation, the same summary of the DataMPT records the harness prints for the
-real store (count, digest, changed records), under real double SHA-256.
+Driver for stream `mptrc` (C11): keeps the model's trie, refcount map and LAYERED node store
+(MemCachedStore over the persistent store, Model/MptRc/Layered.lean) per case and prints, after every
+operation, the same summary of the merged DataMPT records the harness prints for the real store
+(count, digest, changed records), under real double SHA-256. After a restart / Collapse / restore
+the blocks run on a "partly loaded" trie: every node an event touches is re-loaded from the store
+first (`loadNode`, trie.go:518-545), a superset of the loads of the real code.
 
   case <k>                 -> case <k>
   mode all|latest|gc       -> ok
+  cfg <gcp> <p2p> <ssi> <mtb>  -> ok           (the node's GC configuration, MaxTraceableBlocks)
+  mtb <v>                  -> mtb=<n>          (a committee transaction asked for MaxTraceableBlocks v)
   blk <idx> <sub>...       -> r=<root> n=<records> dg=<digest> ch=<changes> | panic
   blkq <idx> <sub>...      -> r=<root>
   drop <idx> <sub>...      -> r=<root>
-  gc <G>                   -> n=.. dg=.. ch=..
+  persist                  -> up=<puts>/<dels>  (MemCachedStore.Persist; what was waiting in the upper layer)
+  rungc                    -> gc=<g|-> n=.. dg=.. ch=..   (Run: tryRunGC(oldPersisted) — the model CHOOSES the index)
+  tickchk <mtb> <old> <new> -> gc=<g|->        (tryRunGC's decision alone)
+  gc <G>                   -> n=.. dg=.. ch=..  (Persist, then Module.GC(G) on the persistent store)
+  gcl <G>                  -> up=<puts>/<dels> n=.. dg=.. ch=..  (Module.GC(G) on the persistent store, nothing persisted first)
   gcq <G>                  -> ok
   sync                     -> n=.. dg=.. ch=..
   reset                    -> ok
-  restore <idx> <k>=<v>,.. -> r=<root> n=.. dg=.. ch=..   (Billet restore of the trie with these contents, the state of height idx, into an empty store)
+  restore <idx> <k>=<v>,.. [<sched>] -> r=<root> n=.. dg=.. ch=..   (Billet restore of the trie with these contents, the state of height idx, into an empty store; sched: 0/1 per restoration = persisted before it)
   get <h> <key>            -> <value> | none
   wild                     -> ok
   sub: p:<key>:<val>  d:<key>  b:<key>=<val|del>,...
@@ -20,14 +29,16 @@ real store (count, digest, changed records), under real double SHA-256.
 import NeoModel.Base.Proto
 import NeoModel.Base.Sha256
 import NeoModel.Model.MptRc
+import NeoModel.Model.MptRc.Layered
 open NeoModel NeoModel.Mpt NeoModel.MptRc
 
 def H : Bytes → Bytes := Sha256.hash2
 
 structure DSt where
-  s : St := {}
+  c : Chain := { cfg := { gcp := 1 }, mtb := 0, mode := .all }
   printed : Store := []
-
+  lazy : Bool := false
+  node : Bool := false     -- a core.Blockchain (after `cfg`): storeBlock's Collapse(10) applies
 def le32 (n : Nat) : Bytes :=
   [UInt8.ofNat (n % 256), UInt8.ofNat (n / 256 % 256), UInt8.ofNat (n / 65536 % 256), UInt8.ofNat (n / 16777216 % 256)]
 
@@ -86,67 +97,143 @@ def parseSub (w : String) : Option SubOp :=
 
 def parseSubs (ws : List String) : Option (List SubOp) := ws.mapM parseSub
 
+/-- the loads of a block on a partly loaded trie: before every event, the node it touches. -/
+def loadsFor (lazy : Bool) (t : Node) (ops : List SubOp) : List (List Bytes) :=
+  if lazy then (blockEvs t ops).map (fun e => [hash H e.2]) else []
+
+/-- "up=<pending puts>/<pending deletions>" of the upper layer. -/
+def upStr (l : Lay) : String :=
+  s!"up={(l.up.filter (·.2.isSome)).length}/{(l.up.filter (·.2.isNone)).length}"
+
+/-- one committed block: on a node `storeBlock` (Model/MptRc/Layered.lean `stepChain`), on a bare
+trie / state module just AddMPTBatch + commit. -/
+def blockStep (node : Bool) (c0 : Chain) (ops : List SubOp) (ld : List (List Bytes)) : Option Chain :=
+  if node then stepChain H c0 (.addBlock ops ld none)
+  else
+    match computeLay H c0.mode c0.next c0.root c0.rc c0.lay ops ld with
+    | none => none
+    | some (t', m', l') =>
+      some { c0 with root := t', rc := m', lay := l', next := c0.next + 1,
+                     roots := (c0.next, rootHash H t') :: c0.roots, hist := (c0.next, t') :: c0.hist }
+
+def gcStr : Option Nat → String
+  | some g => s!"gc={g}"
+  | none => "gc=-"
+
 def step (d : DSt) (ws : List String) : DSt × String :=
   match ws with
   | ["case", k] => ({}, s!"case {k}")
   | ["mode", m] =>
     let mode := if m == "latest" then Mode.latest else if m == "gc" then Mode.gc else Mode.all
-    ({ d with s := { d.s with mode := mode } }, "ok")
+    ({ d with c := { d.c with mode := mode } }, "ok")
+  | ["cfg", gcp, p2p, ssi, mtb] =>
+    match gcp.toNat?, ssi.toNat?, mtb.toNat? with
+    | some g, some si, some mt =>
+      ({ d with c := { d.c with cfg := { gcp := g, p2p := p2p == "1", ssi := si }, mtb := mt }, node := true }, "ok")
+    | _, _, _ => (d, "bad-op")
+  | ["mtb", v] =>
+    match v.toNat? with
+    | some n =>
+      -- the translated Policy.setMaxTraceableBlocks decides (committee-signed; MaxValidUntilBlockIncrement
+      -- is 1 in the harness configuration); `policy_setter_is_newMtbOf`: an accepted value is `newMtbOf`
+      let m' := match NeoModel.Generated.GoFuncs.policySetMaxTraceableBlocks (n : Int) (d.c.mtb : Int) 1 true 0 with
+        | some (_ :: v :: _) => v.toNat
+        | _ => d.c.mtb
+      ({ d with c := { d.c with mtb := m' } }, s!"mtb={m'}")
+    | none => (d, "bad-op")
   | "blk" :: idx :: subs =>
     match idx.toNat?, parseSubs subs with
     | some i, some ops =>
-      match commit H d.s i ops with
+      let c0 := { d.c with next := i }
+      match blockStep d.node c0 ops (loadsFor d.lazy c0.root ops) with
       | none => (d, "panic")
-      | some s' =>
-        ({ s := s', printed := s'.store },
-          s!"r={Hex.encode (rootHash H s'.root)} {storeObs d.printed s'.store}")
+      | some c' =>
+        let v := c'.lay.view
+        ({ d with c := c', printed := v }, s!"r={Hex.encode (rootHash H c'.root)} {storeObs d.printed v}")
     | _, _ => (d, "bad-op")
   | "blkq" :: idx :: subs =>
     match idx.toNat?, parseSubs subs with
     | some i, some ops =>
-      let t' := trieAfter d.s.root ops
+      let c0 := { d.c with next := i }
+      let t' := trieAfter c0.root ops
       let r := rootHash H t'
-      match commit H d.s i ops with
-      | none => ({ d with s := { d.s with root := t', roots := (i, r) :: d.s.roots } }, s!"r={Hex.encode r}")
-      | some s' => ({ d with s := s' }, s!"r={Hex.encode r}")
+      match blockStep d.node c0 ops (loadsFor d.lazy c0.root ops) with
+      | none => ({ d with c := { c0 with root := t', roots := (i, r) :: c0.roots, next := i + 1 } }, s!"r={Hex.encode r}")
+      | some c' => ({ d with c := c' }, s!"r={Hex.encode r}")
     | _, _ => (d, "bad-op")
   | "drop" :: idx :: subs =>
     match idx.toNat?, parseSubs subs with
     | some i, some ops =>
-      let t' := trieAfter d.s.root ops
+      let c := d.c
+      let t' := trieAfter c.root ops
       let r := rootHash H t'
-      match dropBlock H d.s i ops with
-      | none => ({ d with s := { d.s with root := t' } }, s!"r={Hex.encode r}")
-      | some s' => ({ d with s := s' }, s!"r={Hex.encode r}")
+      -- Model/MptRc.lean `dropBlock`: the block's cache is discarded, but the trie object and the
+      -- refcount map are shared with the module's
+      match computeLay H c.mode i c.root c.rc c.lay ops (loadsFor d.lazy c.root ops) with
+      | none => ({ d with c := { c with root := t' } }, s!"r={Hex.encode r}")
+      | some (_, m', _) => ({ d with c := { c with root := t', rc := m' } }, s!"r={Hex.encode r}")
     | _, _ => (d, "bad-op")
+  | ["persist"] =>
+    match stepChain H d.c (.persist true) with
+    | some c' => ({ d with c := c' }, upStr d.c.lay)
+    | none => (d, "bad-op")
+  | ["rungc"] =>
+    let before := d.c.gcs.length
+    match stepChain H d.c .runGC with
+    | some c' =>
+      let g := if c'.gcs.length > before then c'.gcs.head? else none
+      let v := c'.lay.view
+      ({ d with c := c', printed := v }, s!"{gcStr g} {storeObs d.printed v}")
+    | none => (d, "bad-op")
+  | ["tickchk", mtb, old, new] =>
+    match mtb.toNat?, old.toNat?, new.toNat? with
+    | some mt, some o, some n => (d, gcStr (tryRunGC d.c.cfg mt o n))
+    | _, _, _ => (d, "bad-op")
   | ["gc", g] =>
     match g.toNat? with
     | some gi =>
-      let s' := gcSt d.s gi
-      ({ s := s', printed := s'.store }, storeObs d.printed s'.store)
+      let c' := { d.c with lay := d.c.lay.persist.gcLow gi, persisted := d.c.next - 1 }
+      let v := c'.lay.view
+      ({ d with c := c', printed := v }, storeObs d.printed v)
+    | none => (d, "bad-op")
+  | ["gcl", g] =>
+    match g.toNat? with
+    | some gi =>
+      let c' := { d.c with lay := d.c.lay.gcLow gi }
+      let v := c'.lay.view
+      ({ d with c := c', printed := v }, s!"{upStr d.c.lay} {storeObs d.printed v}")
     | none => (d, "bad-op")
   | ["gcq", g] =>
     match g.toNat? with
-    | some gi => ({ d with s := gcSt d.s gi }, "ok")
+    | some gi => ({ d with c := { d.c with lay := d.c.lay.persist.gcLow gi, persisted := d.c.next - 1 } }, "ok")
     | none => (d, "bad-op")
-  | ["sync"] => ({ d with printed := d.s.store }, storeObs d.printed d.s.store)
-  | ["reset"] => ({ d with s := reset d.s }, "ok")
-  | ["restore", idx, es] =>
+  | ["sync"] =>
+    let v := d.c.lay.view
+    ({ d with printed := v }, storeObs d.printed v)
+  | ["reset"] =>
+    match stepChain H d.c .restart with
+    | some c' => ({ d with c := c', lazy := true }, "ok")
+    | none => (d, "bad-op")
+  | "restore" :: idx :: es :: rest =>
     match idx.toNat?, (if es == "-" then some [] else (splitOn es ',').mapM parseKV) with
     | some i, some m =>
+      let sched : List Bool := match rest with
+        | [sc] => sc.toList.map (· == '1')
+        | _ => []
       let t := putBatch .empty (mapToBatch m)
-      let st := restoreAll H d.s.mode [] t
-      ({ s := { d.s with root := t, rc := [], store := st, roots := [(i, rootHash H t)], hist := [(i, t)] },
-         printed := st },
-        s!"r={Hex.encode (rootHash H t)} {storeObs [] st}")
+      let l := restoreL H d.c.mode {} (positions t) sched
+      let v := l.view
+      ({ d with c := { d.c with root := t, rc := [], lay := l, roots := [(i, rootHash H t)], hist := [(i, t)], next := i + 1 },
+                printed := v, lazy := true },
+        s!"r={Hex.encode (rootHash H t)} {storeObs [] v}")
     | _, _ => (d, "bad-op")
   | ["wild"] => (d, "ok")
   | ["get", h, k] =>
     match h.toNat?, Hex.decode k with
     | some hn, some kb =>
-      match d.s.roots.lookup hn with
+      match d.c.roots.lookup hn with
       | some root =>
-        match readAt d.s.store root kb with
+        match lwalk d.c.lay (d.c.lay.low.length + d.c.lay.up.length + 2) root (toNibbles kb) with
         | .found v => (d, Hex.encode v)
         | _ => (d, "none")
       | none => (d, "no-such-height")
